@@ -248,6 +248,43 @@ def impl_range_in_endpoint(spec, array):
     return [r.start, r.end, r.size, r.base, r.idx]
 
 
+def impl_ranges_in_endpoint(specs):
+    """several specifications as the ranges of one (single) endpoint description: what it then carries"""
+    from floogen.model.endpoint import EndpointDesc
+    try:
+        e = EndpointDesc(name="e", addr_range=[dict(x) for x in specs], sbr_port_protocol=["p"])
+    except Exception:  # pylint: disable=broad-except
+        return None
+    return [[r.start, r.end, r.size, r.base, r.idx] for r in e.addr_range]
+
+
+def impl_ranges_via_network(specs, n):
+    """the ranges the n elements of a subordinate array end up with in a compiled network (None if refused)"""
+    from floogen.model.network import Network
+    aw = 64
+    prot = [{"name": nm, "protocol": "AXI4", "data_width": 64, "addr_width": aw, "id_width": 3, "user_width": 1}
+            for nm in ("axi_in", "axi_out")]
+    cfg = {"name": "t", "description": "", "network_type": "axi", "routing": {"route_algo": "ID", "use_id_table": True},
+           "protocols": prot,
+           "endpoints": [{"name": "tile", "array": [n], "addr_range": [dict(x) for x in specs], "sbr_port_protocol": ["axi_out"]},
+                         {"name": "host", "mgr_port_protocol": ["axi_in"]}],
+           "routers": [{"name": "xbar"}],
+           "connections": [{"src": "tile", "dst": "xbar", "src_range": [[0, n - 1]], "allow_multi": True},
+                           {"src": "host", "dst": "xbar"}]}
+    try:
+        net = Network.model_validate(cfg)
+        net.create_network()
+        net.compile_network()
+    except Exception:  # pylint: disable=broad-except
+        return None
+    out = {}
+    for _, ni in net.graph.get_ni_nodes(with_name=True):
+        if ni.endpoint.name == "tile" and ni.arr_idx is not None:
+            key = ni.arr_idx.id if hasattr(ni.arr_idx, "id") else ni.arr_idx.x
+            out[key] = [[r.start, r.end, r.size] for r in ni.addr_range]
+    return out
+
+
 def range_holds(spec, k, ir, isi):
     """C17 on one accepted construction (`ir`) and its re-indexing to k (`isi`)"""
     st, en, sz, ba, ix = ir["ok"]
@@ -319,6 +356,20 @@ class C17Runner:
                                  "detail": f"AddrRange gives {ir['ok']}, as the range of an endpoint description it is {via}"}
                             rep.finding(f, {"property": pid, "finding": f, "spec": spec, "k": k,
                                             "array": 3 if stats["accepted"] % 2 else None})
+                    # … and next to a second window that starts where this one ends (two ranges stay two ranges)
+                    if stats["accepted"] % 3 == 0:
+                        nxt = {"start": ir["ok"][1], "size": 1 + stats["accepted"] % 7}
+                        inx, _ = impl_range(nxt)
+                        if "ok" in inx:
+                            order = [spec, nxt] if stats["accepted"] % 2 else [nxt, spec]
+                            both = impl_ranges_in_endpoint(order)
+                            wantb = [ir["ok"], inx["ok"]] if order[0] is spec else [inx["ok"], ir["ok"]]
+                            if both is not None:
+                                stats["via-endpoint-pairs"] += 1
+                                if both != wantb and not rep.violations:
+                                    f = {"claim": "range-changed-in-endpoint", "site": json.dumps(order),
+                                         "detail": f"as the two ranges of one endpoint description: {both}, each on its own: {wantb}"}
+                                    rep.finding(f, {"property": pid, "finding": f, "spec": spec, "k": k, "pair": order})
                 else:
                     stats["rejected"] += 1
                 mr = r["range"]
@@ -333,6 +384,26 @@ class C17Runner:
                 elif len(samples) < 3 and "ok" in ir:
                     samples.append({"spec": spec, "range": ir["ok"], "set_idx": [k, isi]})
         drv.close()
+        # re-indexing as the generator does it: element k of an array with several based ranges of different sizes
+        # gets [base + k*size, base + (k+1)*size) of each
+        for t in range(60 if tier == "thorough" else 12):
+            n = rng.randint(2, 5)
+            sizes = [rng.choice([0x10, 0x40, 0x100, 0x1000, 0x3000, 7]) for _ in range(rng.randint(2, 3))]
+            specs, at = [], rng.choice([0, 0x1000, 0x8000_0000])
+            for sz in sizes:
+                specs.append({"base": at, "size": sz})
+                at += n * sz + rng.choice([0, 0x100])
+            rng.shuffle(specs)
+            got = impl_ranges_via_network(specs, n)
+            if got is None:
+                stats["network-refuses"] += 1
+                continue
+            stats["via-network"] += 1
+            want = {k: [[sp["base"] + k * sp["size"], sp["base"] + (k + 1) * sp["size"], sp["size"]] for sp in specs] for k in range(n)}
+            if got != want and not rep.violations:
+                f = {"claim": "reindex-in-network", "site": json.dumps(specs),
+                     "detail": f"elements of a [{n}] array get {got}, expected {want}"}
+                rep.finding(f, {"property": pid, "finding": f, "spec": specs[0], "k": 0, "network_specs": specs, "n": n})
         if mism and not rep.violations:
             rep.unproven({"correspondence": "Lean mkRange/setIdx and AddrRange disagree"}, {"property": pid, "examples": mism})
         return {"evaluations": stats["evaluated"], "distinct_nontrivial": stats["accepted"],
@@ -346,6 +417,19 @@ class C17Runner:
         ir, isi = impl_range(payload["spec"], payload.get("k"))
         if "ok" in ir and not range_holds(payload["spec"], payload.get("k"), ir, isi):
             rep.finding(payload["finding"], payload)
+        elif payload.get("network_specs"):
+            specs, n = payload["network_specs"], payload["n"]
+            got = impl_ranges_via_network(specs, n)
+            want = {k: [[sp["base"] + k * sp["size"], sp["base"] + (k + 1) * sp["size"], sp["size"]] for sp in specs] for k in range(n)}
+            print("elements get", got)
+            if got is not None and got != want:
+                rep.finding(payload["finding"], payload)
+        elif "ok" in ir and payload.get("pair"):
+            both = impl_ranges_in_endpoint(payload["pair"])
+            each = [impl_range(x)[0].get("ok") for x in payload["pair"]]
+            print("as two ranges of one endpoint:", both, "each on its own:", each)
+            if both is not None and both != each:
+                rep.finding(payload["finding"], payload)
         elif "ok" in ir and payload.get("finding", {}).get("claim") == "range-changed-in-endpoint":
             via = impl_range_in_endpoint(payload["spec"], payload.get("array"))
             print("in an endpoint description:", via)
@@ -370,6 +454,9 @@ def impl_select(kind, dims, sel, arg, nm="r"):
     else:
         g.add_nodes_as_array(nm, tuple(dims), "router", edge_type="link", connect=False)
     g.add_nodes_as_tree("w", [2], "router", "link", connect=True)
+    # … and inhabitants whose names start with the same characters: a second tree `<nm>2`, a unit `<nm>_cfg`
+    g.add_nodes_as_tree(nm + "2", [2, 2], "router", "link", connect=True)
+    g.add_node(nm + "_cfg", type="endpoint")
     try:
         if sel == "range":
             return {"nodes": g.get_nodes_from_range(nm, [tuple(p) for p in arg])}
@@ -395,6 +482,38 @@ def expected_range(dims, rng, nm="r"):
             return None
         out.append(nm + "_" + "_".join(str(i) for i in t))
     return out
+
+
+def impl_level_via_network(tree, lvl, nm="r", flip=False):
+    """the routers a connection by tree level attaches an endpoint array to, element by element, as
+    `Network.create_connections` resolves it (an error if the description is refused)"""
+    from floogen.model.network import Network
+    cnt = 1
+    for x in tree[:lvl + 1]:
+        cnt *= x
+    if lvl >= len(tree):
+        cnt = 2
+    prot = [{"name": n2, "protocol": "AXI4", "data_width": 64, "addr_width": 32, "id_width": 3, "user_width": 1}
+            for n2 in ("axi_in", "axi_out")]
+    con = {"src": "ep", "src_range": [[0, cnt - 1]], "dst": nm, "dst_lvl": lvl}
+    if flip:
+        con = {"src": nm, "src_lvl": lvl, "dst": "ep", "dst_range": [[0, cnt - 1]]}
+    cfg = {"name": "t", "description": "", "network_type": "axi", "routing": {"route_algo": "ID", "use_id_table": True},
+           "protocols": prot,
+           "endpoints": [{"name": "ep", "array": [cnt], "addr_range": {"base": 0x1000, "size": 0x100},
+                          "mgr_port_protocol": ["axi_in"], "sbr_port_protocol": ["axi_out"]}],
+           "routers": [{"name": nm, "tree": list(tree)}, {"name": nm + "2", "tree": [2]}],
+           "connections": [con]}
+    try:
+        net = Network.model_validate(cfg)
+        net.create_network()
+    except Exception as e:  # pylint: disable=broad-except
+        return {"err": type(e).__name__}
+    out = []
+    for k in range(cnt):
+        nbrs = [v for _, v in net.graph.out_edges(f"ep_ni_{k}") if net.graph.nodes[v].get("type") == "router"]
+        out.append(nbrs[0] if len(nbrs) == 1 else nbrs)
+    return {"nodes": out}
 
 
 def select_good(dims, sel, arg, nm, ir):
@@ -477,6 +596,21 @@ class C18Runner:
                 elif len(samples) < 3 and "nodes" in ir and len(ir["nodes"]) > 2:
                     samples.append({"case": [kind, dims, sel, arg], "nodes": ir["nodes"]})
         drv.close()
+        # the level selector as a connection uses it (Network.create_connections), both ways round
+        for t in trees:
+            if max(t) > 3 and tier != "thorough":
+                continue
+            for lvl in range(0, len(t) + 1):
+                for flip in (False, True):
+                    ir = impl_level_via_network(t, lvl, "r", flip)
+                    stats["level-via-network"] += 1
+                    exp = ["r_" + "_".join(map(str, ix)) for ix in itertools.product(*[range(x) for x in t[:lvl + 1]])]
+                    good = ir.get("nodes") == exp if lvl < len(t) else "err" in ir
+                    if not good and not rep.violations:
+                        f = {"claim": "selector-result", "site": f"tree{t} lvl {lvl} in a connection" + (" (router first)" if flip else ""),
+                             "detail": json.dumps(ir)[:200]}
+                        rep.finding(f, {"property": pid, "finding": f, "kind": "tree-network", "dims": t, "sel": "lvl", "arg": lvl,
+                                        "flip": flip, "name": "r"})
         if mism and not rep.violations:
             rep.unproven({"correspondence": "Lean selectors and floogen Graph selectors disagree"}, {"property": pid, "examples": mism})
         return {"evaluations": stats["evaluated"], "distinct_nontrivial": stats["returned"],
@@ -487,6 +621,14 @@ class C18Runner:
 
     def replay(self, pid, payload, rep):
         nm = payload.get("name", "r")
+        if payload["kind"] == "tree-network":
+            t, lvl = payload["dims"], payload["arg"]
+            ir = impl_level_via_network(t, lvl, "r", payload.get("flip", False))
+            print(ir)
+            exp = ["r_" + "_".join(map(str, ix)) for ix in itertools.product(*[range(x) for x in t[:lvl + 1]])]
+            if not (ir.get("nodes") == exp if lvl < len(t) else "err" in ir):
+                rep.finding(payload["finding"], payload)
+            return rep.exit_code()
         ir = impl_select(payload["kind"], payload["dims"], payload["sel"], payload["arg"], nm)
         print(ir)
         if not select_good(payload["dims"], payload["sel"], payload["arg"], nm, ir):
